@@ -135,6 +135,15 @@ CHECKS["C19"] = dict(
          "of the bounded model (TLC also proves C03-C05 for every model action) and seeded random graphs; judged by TLC.",
     design="4 C19", technique="TLA+ guard clauses; TLC invariants for model actions; TLC validation of recorded calls of the inherited API on TLC-generated states")
 
+CHECKS["C20"] = dict(
+    text="spec/Conformity.tla states the clauses the property fixes: None iff the window has no snapshot, key set = nodes present at "
+         "start inside the window, scores in [-1,1], equality under renaming of label values and of node ids, score 1 / 0 in the "
+         "one-label case according to reachability (declarative path set of spec/Paths.tla inside the slice), and "
+         "sliding_delta_conformity = the pointwise calls stamped t+delta for exactly the ids with t+delta before the last id. The "
+         "labelled graphs are the TLC-enumerated path domain with seeded label assignments plus seeded random graphs; TLC judges the "
+         "logged scores (scaled by 10^6, tolerance 2). The numeric value in general is not recomputed.",
+    design="4 C20", technique="TLC-enumerated graph domain replayed into the real functions; TLC validation of metamorphic and reachability clauses in TLA+")
+
 NOT_YET = {}
 
 TITLES = {}
